@@ -1094,10 +1094,10 @@ def noise_variances(
     S_sig_ase_i = 2 * mu_ASE * (mu-mu_ASE) * l  # signal-ase beating noise variance, in [V^2]
     S_ase_ase = mu_ASE**2 * (1 - l/2) * l       # ase-ase beating noise variance, in [V^2]
 
-    S_th = 4 * kB * T * BW_el * R_L   # thermal noise variance, in [V^2]
+    S_th = 4 * kB * T * BW_el * R_L * nf_el   # thermal noise variance (with the electrical noise figure), in [V^2]
     S_sh_i = 2 * e * mu * BW_el * R_L   # shot noise variance, in [V^2]
     
-    S = (S_th + S_sig_ase_i + S_ase_ase + S_sh_i) * nf_el   # variance of ON and OFF slots
+    S = S_th + S_sig_ase_i + S_ase_ase + S_sh_i   # variance of ON and OFF slots
     return S
 
 def optimum_threshold(mu0,mu1,S0,S1, modulation: Literal['ook', 'ppm'], M=None):
